@@ -63,8 +63,15 @@ func (self SyntaxError) description() string {
 }
 
 func calcBounds(size int, pos int) (lbound int, lwidth int, rbound int, rwidth int) {
-	if pos >= size || pos < 0 {
-		return 0, 0, size, 0
+	if pos < 0 {
+		pos = 0
+	}
+	if pos >= size {
+		/* at or behind the end: the tail of the source, with the mark behind it */
+		if lbound = size - 32; lbound < 0 {
+			lbound = 0
+		}
+		return lbound, size - lbound, size, 0
 	}
 
 	i := 16
@@ -102,6 +109,18 @@ func (self SyntaxError) Message() string {
 	return self.Msg
 }
 
+// clampPos keeps an error position inside the source: scanners that look ahead
+// (4 bytes for a literal) report positions behind the end for truncated input.
+func clampPos(src string, pos int) int {
+	if pos > len(src) {
+		return len(src)
+	}
+	if pos < 0 {
+		return 0
+	}
+	return pos
+}
+
 func clamp_zero(v int) int {
 	if v < 0 {
 		return 0
@@ -123,6 +142,7 @@ func ErrorWrap(src string, pos int, code types.ParsingError) error {
 
 //go:noinline
 func error_wrap_heap(src string, pos int, code types.ParsingError) *SyntaxError {
+	pos = clampPos(src, pos)
 	return &SyntaxError{
 		Pos:  pos,
 		Src:  src,
@@ -142,6 +162,9 @@ type MismatchTypeError struct {
 
 func swithchJSONType(src string, pos int) string {
 	var val string
+	if pos < 0 || pos >= len(src) {
+		return val
+	}
 	switch src[pos] {
 	case 'f':
 		fallthrough
@@ -179,7 +202,7 @@ func (self MismatchTypeError) Description() string {
 
 func ErrorMismatch(src string, pos int, vt *rt.GoType) error {
 	return &MismatchTypeError{
-		Pos:  pos,
+		Pos:  clampPos(src, pos),
 		Src:  src,
 		Type: vt.Pack(),
 	}
